@@ -91,8 +91,14 @@ upcase_string(const string &str) {
  * Finds a dependency cycle between the given dependency mapping, starting at
  * the node that is already placed in the given cycle vector.
  */
-static bool find_dependency_cycle(vector_string &cycle, std::map<string, std::set<string> > &dependencies) {
+static bool find_dependency_cycle(vector_string &cycle, std::map<string, std::set<string> > &dependencies,
+                                  std::set<string> &exhausted) {
   assert(!cycle.empty());
+
+  if (exhausted.count(cycle.back()) != 0) {
+    // We have already established that no cycle can be reached from here.
+    return false;
+  }
 
   const std::set<string> &deps = dependencies[cycle.back()];
   for (auto it = deps.begin(); it != deps.end(); ++it) {
@@ -106,12 +112,15 @@ static bool find_dependency_cycle(vector_string &cycle, std::map<string, std::se
 
     // Recurse.
     cycle.push_back(*it);
-    if (find_dependency_cycle(cycle, dependencies)) {
+    if (find_dependency_cycle(cycle, dependencies, exhausted)) {
       return true;
     }
     cycle.pop_back();
   }
 
+  // Remember this, so that we do not walk every path through the acyclic part
+  // of the graph again and again.
+  exhausted.insert(cycle.back());
   return false;
 }
 
@@ -258,8 +267,9 @@ int write_python_table_native(std::ostream &out) {
         // But since it does indicate a potential architectural flaw, we do
         // want to let the user know about this.
         vector_string cycle;
+        std::set<string> exhausted;
         cycle.push_back(library_name);
-        if (!find_dependency_cycle(cycle, dependencies)) {
+        if (!find_dependency_cycle(cycle, dependencies, exhausted)) {
           continue;
         }
         assert(cycle.size() >= 2);
